@@ -157,6 +157,9 @@ def compute(rr: RunResult, opt=None, exec_cfg=None, arrays=None, compute_kwargs=
         e._tb = traceback.format_exc()
         return None, "execute", e
     except Exception as e:  # noqa: BLE001
+        from sim.loop import quiesce_zarr_loop
+
+        quiesce_zarr_loop()  # client-side array calls that failed half-way (store down)
         e._tb = traceback.format_exc()
         return None, ("execute" if st.entered else "plan"), e
 
